@@ -128,6 +128,20 @@ def cases(ctx):
             if ctx.mine(i):
                 yield "adsb", {"cs": rs(), "tc": tc, "cat": cat, "df": 17, "pos": 0, "ch2": "A"}
             i += 1
+    # almost blank identifications, exhaustively: one or two non-space characters anywhere, the rest spaces
+    nonsp = [c_ for c_ in LEGAL if c_ != " "]
+    for p1 in range(8):
+        for p2 in range(p1, 8):
+            if ctx.mine(i):
+                for c1 in nonsp:
+                    for c2 in (nonsp if p2 != p1 else [c1]):
+                        s = [" "] * 8
+                        s[p1], s[p2] = c1, c2
+                        c = {"cs": "".join(s), "tc": 1 + (i % 4), "cat": (i // 4) % 8, "df": 17 if (i + len(c1 + c2)) % 2 else 18, "pos": rng.randrange(8),
+                             "ch2": rng.choice(LEGAL), "lower": False}
+                        yield "adsb", c
+                        yield "bds20", dict(c, df=rng.choice((20, 21)))
+            i += 1
     for k in range(ctx.share(200000 if quick else 4000000)):
         s = rs() if k % 5 else rng.choice(("        ", "AAAAAAAA", "99999999", "Z       ", "       Z", "KLM1023 "))
         c = {"cs": s, "tc": rng.randrange(1, 5), "cat": rng.randrange(8), "df": rng.choice((17, 18, 20, 21)),
